@@ -118,6 +118,19 @@ impl Property for C03 {
             if rng.chance(50) {
                 gen::small_loop(rng, &mut cmds);
             }
+            if rng.chance(15) {
+                gen::arith_template(rng, &mut cmds);
+            }
+            if rng.chance(12) {
+                // more passes than the pre-execution's jump budget: level 2 must roll the loop back
+                let rounds = rng.usize(99, 190);
+                let mut lp = Vec::new();
+                gen::small_loop_core(rng, &mut lp, rounds);
+                let pos = rng.usize(0, cmds.len());
+                for (i, c) in lp.into_iter().enumerate() {
+                    cmds.insert(pos + i, c);
+                }
+            }
             if rng.chance(55) {
                 // boundary: the pre-executed prefix stops here (input needed), later code returns to stack 3
                 let pos = rng.usize(1, cmds.len());
@@ -211,10 +224,10 @@ impl Property for C03 {
                 }
             };
             out.add("rustc_runs", 1);
-            let mut r = real::run(&exe, &[], None, &sc.stdin, &chunks, Duration::from_secs(60)).expect("spawn");
+            let mut r = real::run(&exe, &[], None, &sc.stdin, &chunks, Duration::from_secs(20)).expect("spawn");
             if r.timed_out {
                 // retry alone before it counts
-                r = real::run(&exe, &[], None, &sc.stdin, &chunks, Duration::from_secs(120)).expect("spawn");
+                r = real::run(&exe, &[], None, &sc.stdin, &chunks, Duration::from_secs(40)).expect("spawn");
             }
             let _ = std::fs::remove_file(&exe);
             out.add("compiled_runs", 1);
@@ -268,7 +281,7 @@ impl Property for C03 {
         vec![
             "only programs the reference model shows to terminate within 3000 steps with values below 96 bits: a compiled loop cannot be stopped by the step clock".into(),
             "F2/F5/F6 are unavailable for an external executable; stdin chunking (F1) is applied by sized write(2) calls, kernel interleaving uncontrolled".into(),
-            "wall-clock limit 60 s per executable run, retried once alone".into(),
+            "wall-clock limit 20 s per executable run (three orders of magnitude above the expected run time), retried once alone with 40 s; 4 GB address-space limit and 16 MB output cap for runaway programs".into(),
         ]
     }
 }
